@@ -634,6 +634,10 @@ func (w *Reconciler) handleKillJob(
 	tasks []jobtasks.Task,
 ) (*execution.Job, error) {
 	if !shouldKillJob(rj) {
+		// Ensure that the Job is synced again once a future kill timestamp passes.
+		if ktime.IsTimeSetAndLater(rj.Spec.KillTimestamp) {
+			w.enqueueAfter(rj, "kill_timestamp", time.Until(rj.Spec.KillTimestamp.Time))
+		}
 		return rj, nil
 	}
 
